@@ -1127,4 +1127,195 @@ impl Family for StakeFamily {
     fn run(&self, prop: &str, case: &Case, ctx: &mut CaseCtx) -> Result<(), Violation> {
         run_case(prop, case, ctx)
     }
+    fn decode(&self, prop: &str, u: &mut arbitrary::Unstructured) -> Option<Case> {
+        Some(decode_case(prop, u))
+    }
+}
+
+// ---------------------------------------------------------------- byte decoder (fuzz front-end)
+
+use vcore::amounts::{arb_below, arb_bool, arb_u128};
+
+type Un<'a, 'b> = &'a mut arbitrary::Unstructured<'b>;
+
+fn d_user(u: Un) -> u8 {
+    arb_below(u, N_USERS) as u8
+}
+/// -1, 0 or +1
+fn d_pm1(u: Un) -> i8 {
+    arb_below(u, 3) as i8 - 1
+}
+/// u128 in lo..=hi
+fn d_range(u: Un, lo: u128, hi: u128) -> u128 {
+    u.int_in_range(lo..=hi).unwrap_or(lo)
+}
+/// counterpart of `mostly_small_u128`
+fn d_small(u: Un) -> u128 {
+    match arb_below(u, 16) {
+        0..=9 => u.arbitrary::<u16>().unwrap_or(0) as u128 % 1000,
+        10 => 0,
+        11 => 1,
+        12 | 13 => u.arbitrary::<u32>().unwrap_or(0) as u128 % 1_000_001,
+        14 => [u64::MAX as u128, 1u128 << 64, u128::MAX][arb_below(u, 3)],
+        _ => u.arbitrary::<u128>().unwrap_or(0),
+    }
+}
+/// counterpart of `who(f)`: one byte, 3/4 state-relative selector, 1/4 explicit user. The
+/// 16-bit selector is the byte repeated, so that both the high bits (`pick`) and the low
+/// bits (`ix % 4` in `resolve_who`) vary.
+fn d_who(u: Un, f: fn(u16) -> Who) -> Who {
+    if arb_bool(u, 1, 4) {
+        // arb_bool reads one byte; byte % 4 == 0
+        Who::User(d_user(u))
+    } else {
+        f(u.arbitrary::<u8>().unwrap_or(0) as u16 * 257)
+    }
+}
+fn d_tpw_mul(u: Un) -> Amt {
+    Amt::TpwMul(arb_below(u, 8) as u16, d_pm1(u))
+}
+fn d_bond_amt(u: Un) -> Amt {
+    match arb_below(u, 24) {
+        0..=5 => Amt::Abs(N(d_small(u))),
+        6..=10 => Amt::FracBal(u.arbitrary().unwrap_or(0)),
+        11..=14 => d_tpw_mul(u),
+        15..=17 => Amt::ToMinBond(d_pm1(u)),
+        18 | 19 => Amt::Bal(d_pm1(u)),
+        20 | 21 => Amt::ToQuot64(arb_below(u, 4) as i8 - 2),
+        _ => Amt::Abs(N(arb_u128(u))),
+    }
+}
+fn d_unbond_amt(u: Un) -> Amt {
+    match arb_below(u, 22) {
+        0..=6 => Amt::FracStake(u.arbitrary().unwrap_or(0)),
+        7..=11 => Amt::Stake(d_pm1(u)),
+        12..=15 => Amt::Abs(N(d_small(u))),
+        16 | 17 => d_tpw_mul(u),
+        18..=20 => Amt::ToMinBond(d_pm1(u)),
+        _ => Amt::Abs(N(arb_u128(u))),
+    }
+}
+fn d_donate_amt(u: Un) -> Amt {
+    match arb_below(u, 7) {
+        0..=3 => Amt::Abs(N(1 + u.arbitrary::<u16>().unwrap_or(0) as u128 % 999)),
+        4 | 5 => Amt::FracBal(u.arbitrary().unwrap_or(0)),
+        _ => Amt::Abs(N(arb_u128(u))),
+    }
+}
+fn d_cfg(u: Un) -> Cfg {
+    let cw20 = arb_bool(u, 1, 2);
+    let tpw = match arb_below(u, 32) {
+        0..=10 => 1,
+        11..=15 => 2 + arb_below(u, 9) as u128,
+        16..=19 => 1000,
+        20..=22 => d_range(u, 11, 99_999),
+        23..=25 => 1u128 << 64,
+        26 => u64::MAX as u128,
+        27 | 28 => arb_u128(u),
+        29 => 0,
+        _ => u.arbitrary::<u128>().unwrap_or(1),
+    };
+    let min_bond = match arb_below(u, 16) {
+        0..=2 => MinBond::Abs(N(0)),
+        3 | 4 => MinBond::Abs(N(1)),
+        5..=8 => MinBond::Abs(N(d_range(u, 2, 4999))),
+        9..=13 => MinBond::TpwTimes(1 + arb_below(u, 5) as u16, d_pm1(u)),
+        _ => MinBond::Abs(N(arb_u128(u))),
+    };
+    let period = match arb_below(u, 20) {
+        0..=5 => Period::Height(1 + arb_below(u, 5) as u64),
+        6..=11 => Period::Time(1 + arb_below(u, 59) as u64),
+        12 => Period::Height(0),
+        13 => Period::Time(0),
+        14 | 15 => Period::Height(6 + arb_below(u, 194) as u64),
+        16 | 17 => Period::Time(u.int_in_range(60u64..=99_999).unwrap_or(60)),
+        18 => {
+            let k = u64::MAX - arb_below(u, 3) as u64;
+            if arb_bool(u, 1, 2) { Period::Height(k) } else { Period::Time(k) }
+        }
+        _ => {
+            let k = u.arbitrary::<u64>().unwrap_or(0);
+            if arb_bool(u, 1, 2) { Period::Height(k) } else { Period::Time(k) }
+        }
+    };
+    let mut funds = vec![];
+    for _ in 0..N_USERS {
+        let f = match arb_below(u, 16) {
+            0..=5 => d_range(u, 1000, 999_999_999_999),
+            6 => u.arbitrary::<u16>().unwrap_or(0) as u128 % 1000,
+            7 => 1u128 << 64,
+            8 | 9 => d_range(u, 1u128 << 64, (1u128 << 70) - 1),
+            10 => d_range(u, 1u128 << 100, (1u128 << 101) - 1),
+            11..=13 => MAX_FUNDS,
+            14 => u.arbitrary::<u128>().unwrap_or(0) >> 1,
+            _ => arb_u128(u).min(MAX_FUNDS),
+        };
+        funds.push(N(f));
+    }
+    let near_denom = arb_bool(u, 2, 5);
+    Cfg { cw20, tpw: N(tpw), min_bond, period, funds, near_denom }
+}
+
+/// Byte decoder for C10 cases: configuration, then up to 40 op groups (the quick tier's
+/// bound) drawn like `op_group()`: single ops, the bond / unbond / early claim / advance to
+/// release / claim cycle, and (at most twice per case, they are long) the claim pile.
+pub fn decode_case(_prop: &str, u: &mut arbitrary::Unstructured) -> Case {
+    let cfg = d_cfg(u);
+    let n_groups = arb_below(u, 41);
+    let mut ops: Vec<Op> = vec![];
+    let mut piles = 0;
+    for _ in 0..n_groups {
+        if ops.len() >= 64 {
+            break;
+        }
+        let mut sel = arb_below(u, 32);
+        if sel == 31 {
+            // the rare arms
+            sel = 31 + arb_below(u, 3);
+            if sel == 33 && piles >= 2 {
+                sel = 29;
+            }
+        }
+        match sel {
+            0..=8 => ops.push(Op::Bond { by: d_who(u, Who::WithFunds), amt: d_bond_amt(u) }),
+            9..=14 => ops.push(Op::Unbond { by: d_who(u, Who::WithStake), amt: d_unbond_amt(u) }),
+            15..=19 => ops.push(Op::Claim { by: d_who(u, Who::WithClaims) }),
+            20..=22 => ops.push(Op::Advance { blocks: arb_below(u, 4) as u16, secs: arb_below(u, 40) as u32 }),
+            23..=25 => ops.push(Op::AdvanceToRelease { by: d_who(u, Who::WithClaims), d: d_pm1(u) }),
+            26..=28 => {
+                let by = d_user(u);
+                let kind = [Foreign::WrongDenom, Foreign::TwoCoins, Foreign::OtherCw20, Foreign::WrongKind, Foreign::FakeReceive][arb_below(u, 5)];
+                let amt = if arb_bool(u, 3, 4) { 1 + u.arbitrary::<u16>().unwrap_or(0) as u128 % 999 } else { arb_u128(u) };
+                ops.push(Op::Foreign { by, kind, amt: N(amt), victim: d_user(u) });
+            }
+            29 | 30 => {
+                let by = Who::User(d_user(u));
+                ops.push(Op::Bond { by, amt: d_bond_amt(u) });
+                ops.push(Op::Unbond { by, amt: Amt::FracStake(arb_below(u, 255) as u8) });
+                if arb_bool(u, 1, 2) {
+                    ops.push(Op::Claim { by });
+                }
+                ops.push(Op::AdvanceToRelease { by, d: d_pm1(u) });
+                ops.push(Op::Claim { by });
+            }
+            31 => ops.push(Op::Donate { by: d_user(u), amt: d_donate_amt(u) }),
+            32 => ops.push(Op::Advance { blocks: u.int_in_range(0u16..=299).unwrap_or(0), secs: u.int_in_range(0u32..=199_999).unwrap_or(0) }),
+            _ => {
+                piles += 1;
+                let by = Who::User(d_user(u));
+                let n = 8 + arb_below(u, 18);
+                let d = d_pm1(u);
+                ops.push(Op::Bond { by, amt: Amt::Abs(N(5000)) });
+                for i in 0..n {
+                    ops.push(Op::Unbond { by, amt: Amt::Abs(N(1 + i as u128 % 3)) });
+                    ops.push(Op::Advance { blocks: 1 + (i as u16 % 2), secs: 5 });
+                }
+                ops.push(Op::AdvanceToRelease { by, d });
+                ops.push(Op::Claim { by });
+                ops.push(Op::Advance { blocks: 3, secs: 15 });
+                ops.push(Op::Claim { by });
+            }
+        }
+    }
+    Case { cfg, ops }
 }
